@@ -1,0 +1,23 @@
+//go:build verif
+
+// Machine-checked contracts for package excellent/functions (comment-only; read by /verif/gocv).
+// Most functions of this package are covered by the zero-annotation no-panic sweep (/verif/sweeps/C04.json); the
+// ones below are listed explicitly because their obligations found defects.
+
+package functions
+
+//@ func Mod
+//@   nopanic
+//@   requires num1 != nil && num2 != nil
+
+//@ func Round
+//@   nopanic
+//@   requires num != nil
+
+//@ func RoundUp
+//@   nopanic
+//@   requires num != nil
+
+//@ func RoundDown
+//@   nopanic
+//@   requires num != nil
